@@ -80,7 +80,7 @@ class RepeatingEventBase(EventBase):
         if self.count > 0:
             # ev_end is using event timescale
             ev_end = presentation_time + (self.count * self.interval)
-            if ev_end < seg_start:
+            if ev_end <= seg_start:
                 return []
 
         event_id = 0
